@@ -248,7 +248,7 @@ def c19_3(ck, prog):
                     'the failure is no longer sent to every entry (first->next) of the activation in one transaction')
     send_ids = {c['id'] for c in sends}
     head, body, bad, on_transfer = lib.loop_exits_only_when(
-        ts, r, 'fan-out', lambda blk: (blk.get('term') or {}).get('kind') == 'WhileStmt',
+        ts, r, 'fan-out', lambda blk: (blk.get('term') or {}).get('kind') in ('WhileStmt', 'ForStmt'),
         lambda ctx, frm: any(ctx.result_known(c) is False for c in send_ids), 'send failed')
     Explorer(ts, on_transfer=on_transfer, calls={'bus_transaction_send_error_reply'}, track='auto').run()
     if bad:
